@@ -72,11 +72,13 @@ def prefer(r):
             j = z3.Int('pref_uk')
             prefs.append(r.step.u * 16 == z3.ToReal(j))
     t = r.A.target if getattr(r, 'A', None) is not None else None
-    for a in w.addrs:
-        if a != t:
-            prefs.append(r.st[a]['comp'] == 0)
-    if t is not None:
-        prefs.append(r.st[t]['comp'] == 0)
+    st = getattr(r, 'st', None)
+    if st is not None:
+        for a in w.addrs:
+            if a != t:
+                prefs.append(st[a]['comp'] == 0)
+        if t is not None:
+            prefs.append(st[t]['comp'] == 0)
     for bits in w.FW.values():
         for b in bits.values():
             prefs.append(sx.zbool(b))
